@@ -33,6 +33,16 @@ if [ $need = 1 ]; then
   for f in $R/build/extract/*.ml; do b=$(basename $f .ml); mods="$mods $b.mli $b.ml"; done
   hs=""
   for f in $R/driver/h_*.ml; do [ -f "$f" ] && hs="$hs $(basename $f)"; done
+  # every handler module h_x.ml exports `install register`; call each from the
+  # (copied) main program right after the built-in handlers are installed
+  for h in $hs; do
+    m=$(basename $h .ml); m="$(echo ${m:0:1} | tr a-z A-Z)${m:1}"
+    echo "let () = $m.install register" >> installs.tmp
+  done
+  if [ -f installs.tmp ]; then
+    awk '{print} /^let \(\) = Handlers.install register/ {while ((getline l < "installs.tmp") > 0) print l}' driver.ml > driver.ml.new && mv driver.ml.new driver.ml
+    rm -f installs.tmp
+  fi
   ocamlfind ocamlopt -O3 -w -a -package str $mods conv.ml $hs handlers.ml driver.ml -o vdriver.new 2>build.log || \
   ocamlfind ocamlopt -w -a $mods conv.ml $hs handlers.ml driver.ml -o vdriver.new 2>build.log || { cat build.log; exit 1; }
   mv vdriver.new vdriver
